@@ -113,6 +113,10 @@ fn parse_addresses<'a, T: FromStr<Err = AddrParseError>, I: Iterator<Item = &'a 
     let source_port = iterator.next().ok_or(ParseError::MissingSourcePort)?;
     let destination_port = iterator.next().ok_or(ParseError::MissingDestinationPort)?;
 
+    if destination_port.is_empty() && iterator.next().is_none() {
+        return Err(ParseError::MissingDestinationPort);
+    }
+
     let source_address = source_address
         .parse::<T>()
         .map_err(ParseError::InvalidSourceAddress)?;
